@@ -68,6 +68,8 @@ def run(tier, seed, budget, prop='C22'):
         rep.count('events', st2['events'])
         rep.count('fence_probes', st2['fence_probes'])
         rep.count('fence_probes_rejected', st2['fence_probes_rejected'])
+        rep.count('fence_fresh_probes', st2['fence_fresh_probes'])
+        rep.count('fence_fresh_refused', st2['fence_fresh_refused'])
         for f in res['c22' if prop == 'C22' else 'c23']:
             rep.add_violation(Violation(prop, f['cls'], f['detail'], trig(cfg), {'kind': 'dw-execution', 'seed': t['seed'], 'idx': t['idx'], 'cfg': cfg, 'finding': f, 'execution': res.get('full')}))
     return rep.finish()
@@ -76,7 +78,8 @@ RULE_C23 = ('same executions as C22; oracle over the harness event log (global s
             'segment s of topic t) recorded inside metadata.rs::apply under the state lock, write_begin(node, wal key) recorded in bucket.rs right before the engine '
             'append: no write_begin(n, t/s) after applied(n, rollover sealing t/s); no write_begin(n, t/s) while n\'s applied metadata assigns segment s of t to another '
             'node; and, at the quiescent point that ends every execution (clients stopped, every node caught up, leases refreshed), a forwarded append '
-            'carrying the key of a segment that the node\'s applied metadata sealed before the quiescent period (up to 4 per node) must be refused. '
+            'carrying the key of a segment that the node\'s applied metadata sealed before the quiescent period (up to 4 per node) must be refused; in the single-node executions without lease loop and monitor (every lease refresh happens inside a call) the open segment '
+            'is then filled until the node applies its sealing and one more forwarded append with the key just sealed must be refused as well. '
             'non-trivial = execution with >= 1 rollover applied and >= 1 data-plane write')
 
 def replay(path, prop='C22'):
